@@ -230,7 +230,8 @@ def check(tier: str) -> Result:
         if isinstance(node, ast.If) and node.body and isinstance(node.body[-1], ast.Raise):
             raises.append(ast.unparse(node.test))
     tests = [uncopy(e.target) for e in vfg.events if e.kind == "py_branch" and e.name == "if" and e.func is f]
-    no_match = any(t.kind == "un" and t.args[0] == "not" and t.args[1] is M for t in tests) if M is not None else False
+    no_match = any((t.kind == "un" and t.args[0] == "not" and t.args[1] is M) or
+                   (t.kind == "cmp" and t.args[0] == "is" and t.args[1] is M and t.args[2] is NONE) for t in tests) if M is not None else False
     ver_none = any(t.kind == "cmp" and t.args[0] == "is" and t.args[2] is NONE and t.args[1].kind == "proj" and t.args[1].args[1] == 1 for t in tests)
     res.add("C18.R1", f.loc(), "registration.parse_env_id", "raises when the regex does not match", no_match and len(raises) >= 1, f"raising tests {raises}")
     res.add("C18.R1", f.loc(), "registration.parse_env_id", "raises when the version group is None", ver_none and len(raises) >= 2, f"raising tests {raises}")
@@ -278,11 +279,17 @@ def check(tier: str) -> Result:
         why = f"key {txt(key, 3, 60)} is spec.id: {key is sid}; guard `spec.id in _REGISTRY` seen: {guard}"
         ok = ok and guard
     res.add("C18.R2", fns["register"].loc(), "registration.register", "stored key is the checked spec's id; the check tests `spec.id in _REGISTRY`", ok, why)
-    chk = fns["_check_registration_is_allowed"].node
-    raising = [n for n in ast.walk(chk) if isinstance(n, ast.If) and n.body and isinstance(n.body[-1], ast.Raise)]
-    res.add("C18.R2", fns["_check_registration_is_allowed"].loc(), "registration._check_registration_is_allowed",
-            "raises when the id is already registered", len(raising) == 1 and isinstance(raising[0].test, ast.Compare) and isinstance(raising[0].test.ops[0], ast.In),
-            ast.unparse(raising[0].test) if raising else "no raising branch")
+    chk = fns["_check_registration_is_allowed"]
+    v4 = VFG(tree, Model(tree))
+    sp = mk("param", chk.qual, chk.params[0])
+    v4.apply_func(chk, None, None, [sp], {}, None, None)
+    REG4 = mk("ext", REG + "_REGISTRY")
+    ifs = [e for e in v4.events if e.kind == "py_branch" and e.name == "if" and e.func is chk]
+    good = [e for e in ifs if uncopy(e.target).kind == "cmp" and uncopy(e.target).args[0] == "in" and uncopy(e.target).args[1] is mk("attr", sp, "id")
+            and uncopy(e.target).args[2] is REG4 and isinstance(e.node, ast.If) and e.node.body and isinstance(e.node.body[-1], ast.Raise)]
+    res.add("C18.R2", chk.loc(), "registration._check_registration_is_allowed",
+            "raises when the id is already registered", len(good) == 1 and len(ifs) == 1,
+            f"raising test {txt(uncopy(ifs[0].target), 4, 80)}" if ifs else "no raising branch")
     # ------------------------------------------------------------------ R3 make
     v3 = VFG(tree, Model(tree))
     f = fns["make"]
@@ -308,7 +315,13 @@ def check(tier: str) -> Result:
             ok = bool(copied and src_ok and upd is kwp)
             why = f"kwargs = update(copy of registered kwargs: {bool(copied and src_ok)}, caller kwargs: {upd is kwp})"
         elif passed is not None and passed.kind == "dict":
-            why = "kwargs built as a new dict literal"
+            # {**registered, **caller}: a fresh dict in which later entries override earlier ones
+            ks, vs = passed.args[0], passed.args[1]
+            stars = [v for k, v in zip(ks, vs) if k.kind == "star"]
+            reg_first = len(stars) == 2 and len(ks) == 2 and stars[0].kind == "attr" and stars[0].args[1] == "kwargs" and contains(stars[0], REGT) and stars[1] is kwp
+            ok = bool(reg_first)
+            why = "kwargs = {**registered kwargs, **caller kwargs} (fresh dict, caller overrides)" if ok else \
+                f"dict literal {txt(passed, 4, 120)} is not {{**registered kwargs, **caller kwargs}} in that order"
         else:
             why = f"constructor kwargs {txt(passed, 4, 160) if passed is not None else None} are not a copy of the registered kwargs updated with the caller's"
         ctor = r.args[0]
@@ -320,15 +333,18 @@ def check(tier: str) -> Result:
            (contains(e.target, REGT)) and not (e.kind == "mutate" and e.target.kind == "call")]
     res.add("C18.R3", f.loc(), "registration.make", "make never writes to the registry or to the registered spec", not bad,
             "no write reaches _REGISTRY / env_spec" if not bad else f"{[ast.unparse(e.node)[:60] for e in bad]}")
-    unknown = [n for n in ast.walk(f.node) if isinstance(n, ast.If) and n.body and isinstance(n.body[-1], ast.Raise)]
     ok = False
     why = "no raising branch"
-    for n in unknown:
-        t = n.test
-        if isinstance(t, ast.Compare) and isinstance(t.ops[0], ast.NotIn) and tree.resolve_expr(m, t.comparators[0]) == REG + "_REGISTRY":
-            uses_registry = any(isinstance(x, ast.Name) and tree.resolve_expr(m, x) == REG + "_REGISTRY" for st in n.body for x in ast.walk(st))
+    for e in v3.events:
+        if e.kind != "py_branch" or e.name != "if" or not isinstance(e.node, ast.If):
+            continue
+        t = uncopy(e.target)
+        n = e.node
+        if t.kind == "cmp" and t.args[0] == "notin" and t.args[2] is REGT and n.body and isinstance(n.body[-1], ast.Raise):
+            mm = e.func.module
+            uses_registry = any(isinstance(x, ast.Name) and tree.resolve_expr(mm, x) == REG + "_REGISTRY" for st in n.body for x in ast.walk(st))
             ok = uses_registry
-            why = f"raises on `{ast.unparse(t)}`; message iterates the registry: {uses_registry}"
+            why = f"raises on `{ast.unparse(n.test)}` in {e.func.name}; message iterates the registry: {uses_registry}"
     res.add("C18.R3", f.loc(), "registration.make", "unknown ids raise with a message listing the registered ids", ok, why)
     # ------------------------------------------------------------------ R4 shipped ids
     init = tree.modules.get("jumanji")
